@@ -405,7 +405,9 @@ mod verif_c11_corpus {
         let key = std::env::var("VERIF_C11_KEY").unwrap();
         let style = ProgressStyle::with_template(&format!("{{{key}}}")).unwrap();
         let mut n = 0;
-        for (pos, len) in [(0u64, None), (7, None), (3, Some(10u64)), (10, Some(10)), (12, Some(10)), (0, Some(0)), (u64::MAX, Some(5))] {
+        for (pos, len) in [(0u64, None), (7, None), (3, Some(10u64)), (10, Some(10)), (12, Some(10)), (0, Some(0)), (u64::MAX, Some(5)),
+                           // fractions whose percentage is an exact decimal tie (x.5 at 0 decimals, x.xxx5 at 3) or just below a unit
+                           (1, Some(8)), (3, Some(8)), (5, Some(8)), (1, Some(200)), (1, Some(64)), (3, Some(64)), (999, Some(1000)), (1, Some(3))] {
             for finished in [false, true] {
                 for age in [0u64, 5, 4000] {
                     if key.contains("per_sec") && (age == 0 || pos > 1_000_000) {
